@@ -76,33 +76,44 @@ class Recorder:
 def injector(env, rec, arrivals, make_packet, target, on_arrival):
     """Hand in packets at scripted instants.
 
-    arrivals: list of dicts with t (absolute instant), src (0 = each arrival is its own process whose
-    timeout is created at time 0; k>0 = chained source k, timeouts created one after the other).
-    The two styles make same-instant order against the element's internal events go both ways.
+    arrivals: list of dicts with t (absolute instant) and src: 0 = each arrival is its own process whose timeout is
+    created at time 0; k>0 = chained source k, timeouts created one after the other.  The two styles make same-instant
+    order against the element's internal events go both ways.  An arrival with "after": [k, hops] instead is *reactive*:
+    it is handed in `hops` zero-delay steps after the k-th departure from the element (a closed-loop, ACK-clocked
+    source), which lands it inside the instant of a transmission end, between the element's internal steps.
+    Returns a function to be called by the sink tap at every departure.
     """
     chains = {}
+    reactive = {}
     for i, a in enumerate(arrivals):
-        chains.setdefault(a.get("src", 1), []).append((i, a))
+        if "after" in a:
+            reactive.setdefault(a["after"][0], []).append((i, a))
+        else:
+            chains.setdefault(a.get("src", 1), []).append((i, a))
 
-    def single(i, a):
-        if a["t"] > 0:
-            yield env.timeout(a["t"])
+    def hand_in(i, a):
         pkt = make_packet(i, a)
         try:
             target.put(pkt)
         finally:
             on_arrival(i, a, pkt)
 
+    def single(i, a):
+        if a["t"] > 0:
+            yield env.timeout(a["t"])
+        hand_in(i, a)
+
     def chain(items):
         for i, a in items:
             d = a["t"] - env.now
             if d > 0:
                 yield env.timeout(d)
-            pkt = make_packet(i, a)
-            try:
-                target.put(pkt)
-            finally:
-                on_arrival(i, a, pkt)
+            hand_in(i, a)
+
+    def react(i, a):
+        for _ in range(a["after"][1]):
+            yield env.timeout(0)
+        hand_in(i, a)
 
     for src, items in sorted(chains.items()):
         if src == 0:
@@ -110,6 +121,17 @@ def injector(env, rec, arrivals, make_packet, target, on_arrival):
                 env.process(single(i, a))
         else:
             env.process(chain(items))
+
+    count = [0]
+
+    def departed():
+        count[0] += 1
+        for i, a in reactive.get(count[0], ()):
+            if a["after"][1] == 0:
+                hand_in(i, a)
+            else:
+                env.process(react(i, a))
+    return departed
 
 
 def run_env(env, rec, until=None, max_steps=200000):
